@@ -483,9 +483,36 @@ class FnParser:
         if m and m.group(1) in UNOPS:
             return Rvalue('unop', m.group(1), self.operand(m.group(2)))
         # cast: `<operand> as <ty> (<Kind>)`
-        m = re.match(r'^(.*) as (.*) \((\w+(?:\([^)]*\))?)\)$', s)
-        if m and (s.startswith(('copy ', 'move ', 'const '))):
-            return Rvalue('cast', self.operand(m.group(1)), m.group(2), m.group(3))
+        if s.startswith(('copy ', 'move ', 'const ')) and s.endswith(')') and ' as ' in s:
+            try:
+                o = match_paren_back(s, len(s) - 1)
+            except MirParseError:
+                o = None
+            if o and s[o - 1] == ' ' and re.match(r'^\w+', s[o + 1:]):
+                head = s[:o - 1]
+                # split at the first top-level ` as `
+                depth = 0
+                i = 0
+                idx = None
+                while i < len(head):
+                    c = head[i]
+                    if c == '"':
+                        i = skip_string(head, i)
+                        continue
+                    if c in '([{':
+                        depth += 1
+                    elif c in ')]}':
+                        depth -= 1
+                    elif depth == 0 and head.startswith(' as ', i):
+                        idx = i
+                        break
+                    i += 1
+                if idx is not None:
+                    try:
+                        opnd = self.operand(head[:idx])
+                        return Rvalue('cast', opnd, head[idx + 4:], s[o + 1:-1])
+                    except MirParseError:
+                        pass
         if s.startswith(('copy ', 'move ', 'const ')):
             return Rvalue('use', self.operand(s))
         # aggregates
@@ -804,7 +831,11 @@ def parse_program(text):
                 idx_name_end = FnParser('', header, [])._find_arglist(header)
                 name = header[3:idx_name_end]
             else:
-                name = re.match(r'^(?:const|static(?: mut)?) (.*?): ', header).group(1)
+                mm = re.match(r'^(?:const|static(?: mut)?) (.*::promoted\[\d+\]): ', header)
+                if mm:
+                    name = mm.group(1)
+                else:
+                    name = re.match(r'^(?:const|static(?: mut)?) (.*?): ', header).group(1)
             fn = FnParser(name, header, body).parse()
             if header.startswith('fn '):
                 functions[name] = fn
